@@ -307,6 +307,8 @@ var jsPrograms = []string{
 	"var a=x===undefined?1:2", "var a=typeof x==='undefined'", "if(a){b()}else{c()}", "for(var i=0;i<n;i++){f(i)}", "var a=x*x*x", "var n=1000000", "var n=0.000001", "var b=!0,c=!1", "var u=void 0", "var a=x?x:y", "a=a+1", "a=a*2", "var r=/a\\/b/", "label:for(;;){break label}",
 	"class A{constructor(){this.x=1}}", "var a=`t${x}`", "var f=x=>x", "var {p,q}=o", "async function f(){await g()}", "var a=x**y", "var o={...p}", "var a=x?.p", "var a=x??y", "a||=b", "var n=1_000", "class B{x=1;#y=2}", "var a=10n",
 	"if(x==null){y()}", "if(x===null||x===undefined){y()}", "var a=x!==null&&x!==undefined?x:y", "var a=x!=null&&x.p", "var a=(x!==null&&x!==void 0)?x.p.q:void 0", "function f(){if(a)return 1;else return 2}", "var s='a'+'b'+c+'d'", "var s='\\x41\\u0042'", "var a=Number(x),b=String(y)", "var a=x===true||x===false",
+	// strings for which the backtick form is the shortest, with each escape that has a rule of its own in the quote choice
+	"log(\"line1\\0\\nline2\\n\")", "var s='a\\0\"\\'b'", "var s='\\0\\n\\n'", "var s=\"a\\x00\\nb\\n'\\\"\"", "var s='\\u0000\\n\\n'", "var s='$\\n\\n{'", "var s='\\\\\\n\\n'", "var s='\\1\\n\\n'", "var s='a\\\nb\\n\\n'",
 }
 
 func leastVersion(w *jsoracle.Worker, text string) int {
@@ -587,7 +589,7 @@ func runCLI(c *core.Check) {
 
 // Run executes C16.
 func Run(c *core.Check) {
-	c.Rule = "HTML: every sequence of <=2 (thorough <=3) of 23 document pieces (optional end tags, comments, conditional and SSI comments, default attribute values, quoted attributes, inline white space, raw text) with and without document tags x all 128 combinations of the 7 Keep options x 4 template delimiter sets, with one kept-construct oracle per enabled option on the raw token stream (x/net tokenizer); JS: 60 programs (every rewrite that introduces newer syntax, newer syntax already in the input) x KeepVarNames x target versions 0,5,2015..2022, output parsed by acorn at max(target, least version accepting the input); numbers: 29 lexemes x 7 precisions x 7 hosts with the C08 tolerance, KeepCSS2 (no exponents, no 4/8-digit hex), KeepNumbers; SVG KeepComments; each CLI flag against the library field"
+	c.Rule = "HTML: every sequence of <=2 (thorough <=3) of 23 document pieces (optional end tags, comments, conditional and SSI comments, default attribute values, quoted attributes, inline white space, raw text) with and without document tags x all 128 combinations of the 7 Keep options x 4 template delimiter sets, with one kept-construct oracle per enabled option on the raw token stream (x/net tokenizer); JS: 69 programs (every rewrite that introduces newer syntax, newer syntax already in the input) x KeepVarNames x target versions 0,5,2015..2022, output parsed by acorn at max(target, least version accepting the input); numbers: 29 lexemes x 7 precisions x 7 hosts with the C08 tolerance, KeepCSS2 (no exponents, no 4/8-digit hex), KeepNumbers; SVG KeepComments; each CLI flag against the library field"
 	c.Assumptions = []string{"acorn's ecmaVersion gating as the definition of 'syntax newer than version V'", "the semantic guarantees under option combinations are checked by C01 (8 configurations), C03 (9 option sets), C04 (KeepCSS2 x inline), C06/C07 (both settings)"}
 	pool, err := jsoracle.NewPool(core.Workers())
 	if err != nil {
